@@ -329,3 +329,23 @@ Example round_he_instances :
   round_he 3 12345 0 = (123, 2) /\ round_he 3 12350 0 = (124, 2) /\ round_he 3 12450 0 = (124, 2) /\
   round_he 3 99950 (-2) = (100, 1) /\ round_he 34 (3 * 10 ^ 40 + 5) 0 = (3 * 10 ^ 33, 7) /\ ndigits 12350 = 5.
 Proof. vm_compute. auto 10. Qed.
+
+(* what Z.quot / Z.rem (Coq's truncated division) are: the remainder is smaller than the divisor
+   in magnitude and has the sign of the dividend, i.e. the quotient is rounded toward zero *)
+Theorem trunc_division_facts a b : b <> 0 ->
+  a = b * Z.quot a b + Z.rem a b /\ Z.abs (Z.rem a b) < Z.abs b /\ 0 <= Z.rem a b * a.
+Proof.
+  intros Hb. split; [apply Z.quot_rem'|]. split; [apply Z.rem_bound_abs; exact Hb|apply Z.rem_sign_mul; exact Hb].
+Qed.
+
+(* the limitation of % is reachable inside the property's own domain (1-34 digits, exponents
+   within +-30): 1e30 % 3e-10 has a 40-digit integer quotient *)
+Example rem_impossible_in_domain :
+  dec_rem (ds "1e30") (ds "3e-10") = NaN /\ ds "1e30" = Fin false 1 30 /\ ds "3e-10" = Fin false 3 (-10) /\
+  prec < ndigits (Z.abs (Z.quot (scoef false (1 * pow10 (30 - Z.min 30 (-10)))) (scoef false (3 * pow10 (-10 - Z.min 30 (-10)))))).
+Proof. vm_compute. auto. Qed.
+
+Example signed_literal_instance :
+  ds "-0.5" = Fin true 5 (-1) /\ ds "1e+06" = Fin false 1 6 /\ ds "-1.25E-7" = Fin true 125 (-9) /\
+  str "-0.5" = 45 :: [48] ++ frac_bytes (Some [53]) ++ exp_bytes None.
+Proof. vm_compute. auto. Qed.
